@@ -61,4 +61,6 @@ def _post(chk, cases, bad, extra):
 def main(tier, replay=None):
     if replay:
         return inst_check.replay("C07", replay, 64)
-    return inst_check.run("C07", tier, 64, GENS, 350, 6000, ASSUMPTIONS, post=_post)
+    return inst_check.run("C07", tier, 64, GENS, 350, 6000, ASSUMPTIONS, post=_post,
+                          aimed=lambda rng, t: ig.element_cases(rng, 250 if t == "quick" else 4000, flavour="frozen",
+                                                                handover=0.6))
